@@ -6,6 +6,7 @@ import (
 
 // C15 — a long-lived engine renders what a fresh engine would after any file edits.
 
+//verif:harness VerifC15_Bare quick.maxpaths=20000 thorough.maxpaths=100000 timeout=1800
 //verif:harness VerifC15_History quick.maxpaths=60000 thorough.maxpaths=400000 timeout=3000 steps=30000000
 
 func zzC15Page(v int) string { return zzC15PageParts(v, v, true) }
@@ -141,5 +142,41 @@ func VerifC15_History() {
 		if !wantFailed {
 			zzAssert(got == want, "C15.history.stale-output")
 		}
+	}
+}
+
+// VerifC15_Bare: the engine's own entry point, called without data, on a page
+// that assigns to its front-matter keys at top level: answering from the
+// cache equals re-reading, render after render, and an edit shows.
+func VerifC15_Bare() {
+	L := zzBound("LB", 2, 3)
+	page := func(v int) string {
+		return "---\nstep: " + strconv.Itoa(v) + "\ntitle: first\n---\n<template :step=\"step + 1\" title=\"seen\"></template><h1>{{ title }} {{ step }}</h1><ul><li v-for=\"i in xs\"><template :step=\"step + 1\"></template>{{ step }}</li></ul>"
+	}
+	fsys := newZZFS(map[string]string{"page.vuego": page(0)})
+	fsys.mtime["page.vuego"] = 2
+	long := NewVue(fsys)
+	fragment := zzBool("fragment")
+	render := func(v *Vue) (string, bool) {
+		w := &zzWriter{limit: 1 << 20}
+		var err error
+		if fragment {
+			err = v.RenderFragment(w, "page.vuego", nil)
+		} else {
+			err = v.Render(w, "page.vuego", nil)
+		}
+		return string(w.got), err != nil
+	}
+	for step := 0; step < L; step++ {
+		if zzBool("edit") {
+			fsys.files["page.vuego"] = page(10 * (step + 1))
+			fsys.mtime["page.vuego"] = int64(3 + step)
+		}
+		got, gotFailed := render(long)
+		want, wantFailed := render(NewVue(fsys))
+		zzNote("want", want)
+		zzNote("got", got)
+		zzAssert(gotFailed == wantFailed, "C15.bare.error-differs-from-fresh-engine")
+		zzAssert(got == want, "C15.bare.stale-output")
 	}
 }
